@@ -21,7 +21,7 @@ SHARD_DTYPES = [
     ["datetime64[ns]", "timedelta64[us]"], ["datetime64[us]", "timedelta64[ns]"], ["datetime64[s]", "timedelta64[s]", "datetime64[ms]"],
     ["float64", "int64"], ["float64", "datetime64[ns]"], ["float64", "int32"],
 ]
-N_CASES = {"quick": 1500, "thorough": 40000}
+N_CASES = {"quick": 1500, "thorough": 18000}
 
 
 def plan(tier):
